@@ -1,9 +1,5 @@
 package bgv
 
-import (
-	"github.com/tuneinsight/lattigo/v6/core/rlwe"
-)
-
 // C05: the integer evaluator is a ring homomorphism on the phase.  With phi(ct) = c0 + c1 s + c2 s^2 the lattigo
 // BGV convention is T*phi = scale*m + T*e, so the documented operations are the ring identities
 //   Add/Sub (equal scales):   phi_out = phi_0 +- phi_1,                      scale_out = scale
